@@ -69,6 +69,7 @@ class Pattern:
         for line in range(self.lines):
             for track in range(self.tracks):
                 new[line][track] = fn(self, line, track)
+        self._adopt(new)
         self._data = new
         return self
 
@@ -88,8 +89,15 @@ class Pattern:
         new = deepcopy(self.data)
         for line, track, note in gen(self, new):
             new[line][track] = note
+        self._adopt(new)
         self._data = new
         return self
+
+    def _adopt(self, data):
+        """Make every note in data belong to this pattern."""
+        for line in data:
+            for note in line:
+                note.pattern = self
 
     def iff_chunks(self):
         yield b"PDTA", self.raw_data
